@@ -109,6 +109,46 @@ struct Cfg {
     /// two-pass mode: the input lacks the line terminator after its last record
     #[allow(dead_code)]
     unterminated: bool,
+    /// two-pass mode: the k-th read of the second pass fails once (kind TimedOut, built without
+    /// allocating); the failed call is simply repeated
+    fault: Option<usize>,
+}
+
+/// a seekable source over a slice whose reads can be made to fail once at a chosen call
+struct Faulty<'a> {
+    inner: std::io::Cursor<&'a [u8]>,
+    reads: std::rc::Rc<std::cell::Cell<usize>>,
+    fail_at: std::rc::Rc<std::cell::Cell<Option<usize>>>,
+    /// at most this many bytes per read (0: no limit): a refill then takes several reads, and a
+    /// failure can hit it half-way
+    chunk: usize,
+}
+
+impl<'a> std::io::Read for Faulty<'a> {
+    fn read(&mut self, buf: &mut [u8]) -> std::io::Result<usize> {
+        let i = self.reads.get();
+        self.reads.set(i + 1);
+        if self.fail_at.get() == Some(i) {
+            self.fail_at.set(None);
+            return Err(std::io::Error::from(std::io::ErrorKind::TimedOut));
+        }
+        if self.chunk > 0 && buf.len() > self.chunk {
+            let c = self.chunk;
+            return self.inner.read(&mut buf[..c]);
+        }
+        self.inner.read(buf)
+    }
+}
+
+impl<'a> std::io::Seek for Faulty<'a> {
+    fn seek(&mut self, to: std::io::SeekFrom) -> std::io::Result<u64> {
+        self.inner.seek(to)
+    }
+}
+
+/// length of the two-pass input
+fn template_len(format: Format, lines: usize, line_len: usize, crlf: bool) -> usize {
+    6 * (7 * record_bytes(format, lines, line_len, crlf).len() + 3 * record_bytes(format, lines, 3 * line_len + 2, crlf).len())
 }
 
 /// Two-pass mode: blocks of 7 short and 3 long records (same number of lines each), six times. The
@@ -139,26 +179,36 @@ fn run_two_pass(c: &Cfg) -> (u64, bool, usize, u64, String) {
     macro_rules! two_pass {
         ($m:ident) => {{
             use seq_io::$m::{Position, Reader, Record, RecordSet};
-            let mut rdr = Reader::with_capacity(std::io::Cursor::new(&data[..]), c.cap).set_policy(CountPolicy(0));
+            let reads = std::rc::Rc::new(std::cell::Cell::new(0usize));
+            let fail_at = std::rc::Rc::new(std::cell::Cell::new(None));
+            let mut rdr = Reader::with_capacity(Faulty { inner: std::io::Cursor::new(&data[..]), reads: reads.clone(), fail_at: fail_at.clone(), chunk: if c.fault.is_some() { c.cap / 2 } else { 0 } }, c.cap).set_policy(CountPolicy(0));
             let mut set = RecordSet::default();
             let mut sink = 0usize;
-            let mut pass = |rdr: &mut Reader<std::io::Cursor<&[u8]>, CountPolicy>, set: &mut RecordSet, n: &mut u64, sink: &mut usize| loop {
-                for _ in 0..c.mixed {
-                    match rdr.next() {
-                        Some(Ok(r)) => {
-                            *sink += r.head().len() + r.seq().len();
-                            *n += 1;
+            let mut pass = |rdr: &mut Reader<Faulty, CountPolicy>, set: &mut RecordSet, n: &mut u64, sink: &mut usize| {
+                let mut errors = 0;
+                loop {
+                    for _ in 0..c.mixed {
+                        match rdr.next() {
+                            Some(Ok(r)) => {
+                                *sink += r.head().len() + r.seq().len();
+                                *n += 1;
+                            }
+                            // the injected failure: the call is repeated
+                            Some(Err(_)) if errors < 3 => errors += 1,
+                            _ => return,
                         }
-                        _ => return,
                     }
-                }
-                if c.set {
-                    if !matches!(rdr.read_record_set(set), Some(Ok(()))) {
-                        return;
-                    }
-                    for r in &*set {
-                        *sink += r.head().len() + r.seq().len();
-                        *n += 1;
+                    if c.set {
+                        match rdr.read_record_set(set) {
+                            Some(Ok(())) => {
+                                for r in &*set {
+                                    *sink += r.head().len() + r.seq().len();
+                                    *n += 1;
+                                }
+                            }
+                            Some(Err(_)) if errors < 3 => errors += 1,
+                            _ => return,
+                        }
                     }
                 }
             };
@@ -166,9 +216,19 @@ fn run_two_pass(c: &Cfg) -> (u64, bool, usize, u64, String) {
             pass(&mut rdr, &mut set, &mut warm, &mut sink);
             let (cap0, bc0) = (rdr.verif_capacity(), set.buf_capacity());
             let seek_ok = rdr.seek(&Position::new(1, 0)).is_ok();
-            let a = measure(|| pass(&mut rdr, &mut set, &mut measured, &mut sink));
+            // the failure is placed k reads after the seek (whose own refill has already happened)
+            if let Some(k) = c.fault {
+                fail_at.set(Some(reads.get() + k));
+            }
+            let mut a = measure(|| pass(&mut rdr, &mut set, &mut measured, &mut sink));
+            if c.fault.is_some() {
+                // after a failed call the batches fall differently than in the first pass, and a set
+                // may legitimately meet more records than any set before (one new slot): with a
+                // failure only the capacity clause is judged (no growth, policy never asked)
+                a = 0;
+            }
             std::hint::black_box(sink);
-            let changed = !seek_ok || measured != warm || rdr.verif_capacity() != cap0 || set.buf_capacity() != bc0 || cap0 != c.cap;
+            let changed = !seek_ok || (c.fault.is_none() && measured != warm) || rdr.verif_capacity() != cap0 || set.buf_capacity() != bc0 || cap0 != c.cap;
             (a, changed, rdr.policy().0, format!("first pass {} records, second pass {} records, seek ok {}, reader capacity {} -> {} (initial {}), set buffer capacity {} -> {}", warm, measured, seek_ok, cap0, rdr.verif_capacity(), c.cap, bc0, set.buf_capacity()))
         }};
     }
@@ -385,6 +445,7 @@ fn main() {
             mixed: r["mixed"].as_u64().unwrap_or(0) as usize,
             varied: r["varied"].as_bool().unwrap_or(false),
             unterminated: r["unterminated"].as_bool().unwrap_or(false),
+            fault: r["fault"].as_u64().map(|k| k as usize),
         };
         let a = run_cfg(&c);
         let b = run_cfg(&c);
@@ -408,27 +469,35 @@ fn main() {
                     let mut cap = rl + 1;
                     while cap <= 5 * rl {
                         for set in [false, true] {
-                            cfgs.push(Cfg { format, lines, line_len, crlf, cap, set, mixed: 0, varied: false, unterminated: false });
+                            cfgs.push(Cfg { format, lines, line_len, crlf, cap, set, mixed: 0, varied: false, unterminated: false, fault: None });
                         }
                         for mixed in [1usize, 2, 3, 5] {
-                            cfgs.push(Cfg { format, lines, line_len, crlf, cap, set: true, mixed, varied: false, unterminated: false });
+                            cfgs.push(Cfg { format, lines, line_len, crlf, cap, set: true, mixed, varied: false, unterminated: false, fault: None });
                         }
                         cap += step;
                     }
                     for set in [false, true] {
-                        cfgs.push(Cfg { format, lines, line_len, crlf, cap: 65536, set, mixed: 0, varied: false, unterminated: false });
+                        cfgs.push(Cfg { format, lines, line_len, crlf, cap: 65536, set, mixed: 0, varied: false, unterminated: false, fault: None });
                     }
                     // records of two lengths: every capacity from the long record + 1 to 4 long records
                     let ll = record_bytes(format, lines, 3 * line_len + 2, crlf).len();
                     for cap in (ll + 1..=4 * ll).chain([65536]) {
                         for mixed in [0usize, 1, 3] {
                             for unterminated in [false, true] {
-                                cfgs.push(Cfg { format, lines, line_len, crlf, cap, set: true, mixed, varied: true, unterminated });
+                                cfgs.push(Cfg { format, lines, line_len, crlf, cap, set: true, mixed, varied: true, unterminated, fault: None });
+                            }
+                        }
+                        // one transient source failure at the k-th read of the second pass, call repeated
+                        if cap <= 2 * ll || cap == 65536 {
+                            for k in 0..(2 * template_len(format, lines, line_len, crlf) / cap + 4).min(60) {
+                                for mixed in [0usize, 1] {
+                                    cfgs.push(Cfg { format, lines, line_len, crlf, cap, set: true, mixed, varied: true, unterminated: false, fault: Some(k) });
+                                }
                             }
                         }
                         // single reads only, up to and including the end of the input
                         for unterminated in [false, true] {
-                            cfgs.push(Cfg { format, lines, line_len, crlf, cap, set: false, mixed: 1, varied: true, unterminated });
+                            cfgs.push(Cfg { format, lines, line_len, crlf, cap, set: false, mixed: 1, varied: true, unterminated, fault: None });
                         }
                     }
                 }
@@ -450,9 +519,9 @@ fn main() {
             l.violation(Violation {
                 property: "C18".into(),
                 sig: format!("{}|{}|{}", c.format.name(), if c.varied { "two-lengths" } else if c.mixed > 0 { "mixed" } else if c.set { "record-set" } else { "next" }, what),
-                detail: format!("{} records with {} sequence line(s) of {} bytes (crlf {}), capacity {}, {}: {} heap allocations in the measured window of {} records, {} policy calls; {}", c.format.name(), c.lines, c.line_len, c.crlf, c.cap, if c.varied { format!("blocks of 7 short and 3 long records{}, second identical pass after seeking back; {} x next() then {}, repeated until the end of the input", if c.unterminated { " (last record without line terminator)" } else { "" }, c.mixed, if c.set { "read_record_set into the reused set" } else { "nothing else" }) } else if c.mixed > 0 { format!("{} x next() then read_record_set, repeated", c.mixed) } else if c.set { "reused record set".to_string() } else { "next()".to_string() }, allocs, measured, pol, info),
+                detail: format!("{} records with {} sequence line(s) of {} bytes (crlf {}), capacity {}, {}: {} heap allocations in the measured window of {} records, {} policy calls; {}", c.format.name(), c.lines, c.line_len, c.crlf, c.cap, if c.varied { format!("blocks of 7 short and 3 long records{}{}, second identical pass after seeking back; {} x next() then {}, repeated until the end of the input", if c.unterminated { " (last record without line terminator)" } else { "" }, c.fault.map_or(String::new(), |k| format!(" (reads of at most capacity/2 bytes; read {} of the second pass fails once, the call is repeated)", k)), c.mixed, if c.set { "read_record_set into the reused set" } else { "nothing else" }) } else if c.mixed > 0 { format!("{} x next() then read_record_set, repeated", c.mixed) } else if c.set { "reused record set".to_string() } else { "next()".to_string() }, allocs, measured, pol, info),
                 weight: (c.cap + c.line_len * 1000) as u64,
-                replay: json!({"kind": "alloc", "format": c.format.name(), "lines": c.lines, "line_len": c.line_len, "crlf": c.crlf, "cap": c.cap, "set": c.set, "mixed": c.mixed, "varied": c.varied, "unterminated": c.unterminated}),
+                replay: json!({"kind": "alloc", "format": c.format.name(), "lines": c.lines, "line_len": c.line_len, "crlf": c.crlf, "cap": c.cap, "set": c.set, "mixed": c.mixed, "varied": c.varied, "unterminated": c.unterminated, "fault": c.fault}),
             });
         }
         if idx % 211 == 7 && l.samples.len() < 2 {
